@@ -60,12 +60,14 @@ Proof. exact serialize_k_LE. Qed.
    parts.  The sorted association lists ARE the content (C02_sort_order_insensitive).
    Hypothesis on the key function: injective on the label names of the archive (explicit: two different names
    with equal keys on one repeated address could be listed in either order).  When the label addresses are
-   distinct - every archive the API can build - no property of kf is needed: C02_serialize_is_canonical_maps. *)
+   distinct - every archive the API can build - no property of kf is needed: C02_serialize_is_canonical_maps.
+   No size hypothesis: serialize and [canonical] both reject a content whose image would exceed the 32-bit sizes of the format
+   (u32::MAX bytes; fix 524d15f, finding F25) with the same error, and below that bound no header field is truncated.
+   (The hypothesis on the string cells says they are 32-bit addresses - true of every cell inside data shorter than 4 GiB.) *)
 Theorem C02_serialize_is_canonical : forall kf m a,
   key_injective_on kf (label_names_of (a_labels a)) ->
   a_cstrs a = [] ->
   Forall (fun p => fst p < U32) (a_text a) ->
-  canonical_size kf (a_endian a) (a_data a) (isort key_leb (a_ptrs a)) (isort key_leb (a_text a)) (isort key_leb (a_labels a)) < U32 ->
   serialize_k kf m a =
     canonical kf (a_endian a) (a_data a) (isort key_leb (a_ptrs a)) (isort key_leb (a_text a)) (isort key_leb (a_labels a)).
 Proof. exact serialize_is_canonical_inj. Qed.
@@ -73,7 +75,6 @@ Theorem C02_serialize_is_canonical_maps : forall kf m a,
   NoDup (map fst (a_labels a)) ->
   a_cstrs a = [] ->
   Forall (fun p => fst p < U32) (a_text a) ->
-  canonical_size kf (a_endian a) (a_data a) (isort key_leb (a_ptrs a)) (isort key_leb (a_text a)) (isort key_leb (a_labels a)) < U32 ->
   serialize_k kf m a =
     canonical kf (a_endian a) (a_data a) (isort key_leb (a_ptrs a)) (isort key_leb (a_text a)) (isort key_leb (a_labels a)).
 Proof. exact serialize_is_canonical_maps. Qed.
@@ -122,25 +123,24 @@ Qed.
 From Mila Require Import Proofs.BinSerializeConforms Proofs.BinReserialize Proofs.BinCanonicalFile.
 
 (* a file written by serialize (either arithmetic profile m), parsed, serializes (either profile m') to the same bytes.
-   [wf_archive]/[fits32]: C01's domain (Properties/C01.v); no pending c-strings: the property speaks of canonical files,
+   [wf_archive]: C01's domain (Properties/C01.v); no size bound - a successful serialize IS the bound (fix 524d15f);
+   no pending c-strings: the property speaks of canonical files,
    and an archive with pending c-strings is not what its own image parses to (the pool becomes data, C01). *)
 Theorem C02_reserialize_identity : forall kf m m' a f a',
-  wf_archive a -> a_cstrs a = [] -> fits32 a ->
+  wf_archive a -> a_cstrs a = [] ->
   serialize_k kf m a = Ok f -> from_bytes (a_endian a) f = Ok a' -> serialize_k kf m' a' = Ok f.
 Proof. exact reserialize_identity. Qed.
 (* ... and so does every archive that answers every lookup like the parsed one (e.g. one rebuilt through the API) *)
 Theorem C02_reserialize_identity_lookups : forall kf m m' a f a' a'',
-  wf_archive a -> a_cstrs a = [] -> fits32 a ->
+  wf_archive a -> a_cstrs a = [] ->
   serialize_k kf m a = Ok f -> from_bytes (a_endian a) f = Ok a' ->
   maps_are_maps a'' -> same_observations a' a'' -> serialize_k kf m' a'' = Ok f.
 Proof. exact reserialize_identity_lookups. Qed.
 (* the wording of the property: ANY canonical file - a byte string f that is the canonical image of a well-formed content
    (given as an archive record without pending c-strings; [canonical] is the independent writer of C02_serialize_is_canonical) -
-   parses, and the parsed archive serializes to f again.  Both size hypotheses say the image is below 4 GiB
-   ([fits32]: the bound C01 uses; [canonical_size]: the exact size of the canonical image). *)
+   parses, and the parsed archive serializes to f again.  No size hypothesis: a canonical image exists only below 4 GiB. *)
 Theorem C02_canonical_file_reserializes : forall kf a f,
-  wf_archive a -> a_cstrs a = [] -> fits32 a ->
-  canonical_size kf (a_endian a) (a_data a) (isort key_leb (a_ptrs a)) (isort key_leb (a_text a)) (isort key_leb (a_labels a)) < U32 ->
+  wf_archive a -> a_cstrs a = [] ->
   canonical kf (a_endian a) (a_data a) (isort key_leb (a_ptrs a)) (isort key_leb (a_text a)) (isort key_leb (a_labels a)) = Ok f ->
   exists a', from_bytes (a_endian a) f = Ok a' /\ forall m', serialize_k kf m' a' = Ok f.
 Proof. exact canonical_file_reserializes. Qed.
